@@ -1840,6 +1840,9 @@ class Node:
             peer = usable_peers[0]
             self.logger.debug(f"Selected only available peer {peer.connection} for app {app}")
         conn = peer.connection
+        if conn is None:
+            # removed since the peers were looked at
+            raise NotRoutable("The selected connection has gone away")
 
         if not message.header.hop_by_hop_identifier:
             message.header.hop_by_hop_identifier = conn.hop_by_hop_seq.next_sequence()
